@@ -4,8 +4,10 @@ mod harness;
 mod logparse;
 mod models;
 mod prng;
+mod props_cfg;
 mod props_git;
 mod props_listen;
+mod props_lock;
 mod props_log;
 mod props_run;
 mod props_store;
@@ -28,7 +30,9 @@ fn props() -> Vec<Box<dyn Property>> {
         Box::new(props_git::C19),
         Box::new(props_log::C08),
         Box::new(props_store::C12),
+        Box::new(props_lock::C14),
         Box::new(props_listen::C15),
+        Box::new(props_cfg::C17),
         Box::new(props_listen::C20),
         Box::new(props_store::C13),
     ]
